@@ -347,6 +347,8 @@ def run(ctx):
         ctx.case(('n', o['arch'], json.dumps({k: (L['mout'], L.get('tm')) for k, L in o['layers'].items()}), job['fold']), nontrivial=pruned,
                  kind='net:%s:%s:%s' % (job['kind'], 'fold' if job['fold'] else 'nofold', 'int' if job['integer'] else 'real'),
                  sample={'arch': o['arch'], 'fold_bn': job['fold'], 'layers': {k: {'mout': L['mout'], 'tm': L.get('tm'), 'exported': L.get('exported')} for k, L in list(o['layers'].items())[:3]}} if job['seed'] % 23 == 0 else None)
+        for ob in (o.get('preobserved') or ['(fresh wrapper)']):
+            ctx.dist['preobserved:' + ob] += 1
         for sw in (o.get('switches') or ['(none)']):
             ctx.dist['switch:' + sw] += 1
         for t in o.get('topo', []):
